@@ -697,7 +697,9 @@ func (w *WAL) AppendBatch(entries []*Entry) (uint64, error) {
 			payloadSize += 4 + len(entry.Value)
 		}
 
-		totalSize += HeaderSize + payloadSize
+		// Entries larger than one record are split into fragments, each of
+		// which carries its own header
+		totalSize += HeaderSize*(payloadSize/MaxRecordSize+2) + payloadSize
 	}
 
 	// Ensure writer buffer is large enough for atomic write
@@ -722,8 +724,9 @@ func (w *WAL) AppendBatch(entries []*Entry) (uint64, error) {
 	// Now write all entries atomically (no intermediate flushes)
 	// All entries in the batch share the same sequence number
 	for i, entry := range entries {
-		// Write the entry using its original type and the same sequence number
-		if err := w.writeRecord(RecordTypeFull, entry.Type, startSeqNum, entry.Key, entry.Value); err != nil {
+		// Write the entry using its original type and the same sequence number,
+		// fragmenting it like Append does when it does not fit into one record
+		if err := w.writeBatchEntry(entry, startSeqNum); err != nil {
 			return 0, fmt.Errorf("failed to write entry %d: %w", i, err)
 		}
 		verifhook.Point("wal.batch.between_records")
@@ -743,6 +746,20 @@ func (w *WAL) AppendBatch(entries []*Entry) (uint64, error) {
 	}
 
 	return startSeqNum, nil
+}
+
+// writeBatchEntry writes one entry of a batch, as a single record if it fits
+// and as a sequence of fragments otherwise
+func (w *WAL) writeBatchEntry(entry *Entry, seqNum uint64) error {
+	entrySize := 1 + 8 + 4 + len(entry.Key)
+	if entry.Type != OpTypeDelete {
+		entrySize += 4 + len(entry.Value)
+	}
+
+	if entrySize <= MaxRecordSize {
+		return w.writeRecord(RecordTypeFull, entry.Type, seqNum, entry.Key, entry.Value)
+	}
+	return w.writeFragmentedRecord(entry.Type, seqNum, entry.Key, entry.Value)
 }
 
 // AppendBatchWithSequence adds a batch of entries to the WAL with a specified starting sequence number
@@ -789,7 +806,9 @@ func (w *WAL) AppendBatchWithSequence(entries []*Entry, startSequence uint64) (u
 			payloadSize += 4 + len(entry.Value)
 		}
 
-		totalSize += HeaderSize + payloadSize
+		// Entries larger than one record are split into fragments, each of
+		// which carries its own header
+		totalSize += HeaderSize*(payloadSize/MaxRecordSize+2) + payloadSize
 	}
 
 	// Ensure writer buffer is large enough for atomic write
@@ -813,8 +832,9 @@ func (w *WAL) AppendBatchWithSequence(entries []*Entry, startSequence uint64) (u
 	// Now write all entries atomically (no intermediate flushes)
 	// All entries in the batch share the same sequence number
 	for i, entry := range entries {
-		// Write the entry using its original type and the same sequence number
-		if err := w.writeRecord(RecordTypeFull, entry.Type, startSeqNum, entry.Key, entry.Value); err != nil {
+		// Write the entry using its original type and the same sequence number,
+		// fragmenting it like Append does when it does not fit into one record
+		if err := w.writeBatchEntry(entry, startSeqNum); err != nil {
 			return 0, fmt.Errorf("failed to write entry %d: %w", i, err)
 		}
 	}
